@@ -1,11 +1,25 @@
 #!/bin/bash
-# tools/seedcheck.sh <patch.diff> <PROP> [tier]  - apply a seeded change to /repo, run the check, undo.
+# tools/seedcheck.sh [--inplace] <patch.diff> <PROP> [tier]
+# Runs the check of <PROP> against a seeded change. Default: the patch is applied to copies of the
+# files it touches and those copies are put in the build overlay (VERIF_PATCH), so /repo is not
+# written and several seeds can be checked at the same time. --inplace: git apply to /repo, run,
+# undo (needed for patches that delete or rename files).
 # Evidence and replays of such runs go to build/ (never to evidence/).
 set -u
-patch=$1; prop=$2; tier=${3:-quick}
-cd /repo || exit 2
-if ! git diff --quiet; then echo "/repo has local modifications; refusing"; exit 2; fi
-git apply "$patch" || { echo "patch does not apply"; exit 2; }
-trap 'git -C /repo checkout -- . ; git -C /repo clean -fdq' EXIT
-cd /verif && VERIF_SCRATCH_EVIDENCE=1 VERIF_DEADLINE_S=${VERIF_DEADLINE_S:-300} bin/check "$prop" "$tier" 2>&1 | grep -E "^(VIOLATION|KNOWN-FINDING|C[0-9]+ (quick|thorough):)|HARNESS|BUILD FAILED" | cut -c1-260 | head -12
-echo "exit=${PIPESTATUS[0]}"
+inplace=0
+if [ "$1" = "--inplace" ]; then inplace=1; shift; fi
+patch=$(readlink -f "$1"); prop=$2; tier=${3:-quick}
+filter() { grep -E "^(VIOLATION|KNOWN-FINDING|C[0-9]+ (quick|thorough):)|HARNESS|BUILD FAILED|does not apply|deletes or renames" | cut -c1-260 | head -12; }
+if [ $inplace = 1 ]; then
+  cd /repo || exit 2
+  if ! git diff --quiet; then echo "/repo has local modifications; refusing"; exit 2; fi
+  git apply "$patch" || { echo "patch does not apply"; exit 2; }
+  trap 'git -C /repo checkout -- . ; git -C /repo clean -fdq' EXIT
+  cd /verif && VERIF_SCRATCH_EVIDENCE=1 VERIF_DEADLINE_S=${VERIF_DEADLINE_S:-300} bin/check "$prop" "$tier" 2>&1 | filter
+  echo "exit=${PIPESTATUS[0]}"
+else
+  tag=seed_$(basename "$(dirname "$patch")")_$prop
+  cd /verif && VERIF_PATCH="$patch" VERIF_TAG="$tag" VERIF_DEADLINE_S=${VERIF_DEADLINE_S:-300} bin/check "$prop" "$tier" 2>&1 | filter
+  echo "exit=${PIPESTATUS[0]}"
+  rm -rf /verif/build/*.$tag.test /verif/build/patched.$tag /verif/build/out/*.$tag
+fi
